@@ -31,6 +31,12 @@ CHECKS = {
   note="Trusted: TLC, vlib bridge. Three known findings (input classes computed by the specification) are downgraded; every other class is reported. Bounds: 2 samples, depth<=3, 3-line locations, names {a,b,u,.a,a(int),ab,xb}.",
   technique="TLA+ spec + TLC exhaustive case enumeration replayed on real Prune/PruneFrom/RemoveUninteresting and the driver",
   design_ref="DESIGN.md 5/C11"),
+ "C07": dict(
+  category="model_checking",
+  text="Combine.tla: the fetch pipeline (per-group sample-type alignment, unit harmonisation with ScaleN's keep rule, merge; base labelling for diff_base, negation, cross-group combination) as actions, against the declarative statement report = SUM sources - SUM bases entry-wise per common column in the finest unit; TLC checks PipelineMeetsDefinition, Linear, SelfDiffEmpty and NoValueDropped over every enumerated tuple. Each tuple is replayed through the real driver (in-memory Fetcher, -base/-diff_base/-normalize): -top rows and totals of every common column, then -proto, reopen and compare again.",
+  note="Trusted: TLC, output readers. Unit factors exact integers; -normalize only with ratio 1. One known finding (ScaleN keep rule) identified by the input class the specification computes.",
+  technique="TLA+ spec + TLC exhaustive enumeration of profile tuples replayed through driver.PProf",
+  design_ref="DESIGN.md 5/C07"),
 }
 
 NOT_YET = "check not built yet in this session (planned in DESIGN.md section 5)"
